@@ -50,8 +50,11 @@ let parse_aop toks = match toks with
   | ["swap"; i; j] -> ASwap (n_ i, n_ j)
   | _ -> failwith ("bad array op: " ^ String.concat " " toks)
 
-let parse_pop toks = match toks with
+(* kind rec: the element is built by an n-argument constructor, `app i v` is the 1-argument form *)
+let parse_pop isrec toks = match toks with
   | ["new"; i] -> PNew (n_ i)
+  | ["app"; i; v] when isrec -> PAppendN (n_ i, [z_ v])
+  | "appn" :: i :: vs when isrec -> PAppendN (n_ i, zs vs)
   | ["app"; i; v] -> PAppend (n_ i, z_ v)
   | ["rem"; i; k] -> PRemove (n_ i, n_ k)
   | ["remr"; i; k] -> PRemoveRef (n_ i, n_ k)
@@ -92,11 +95,11 @@ type mstate = SL of lworld | SP of lworld | SA of aworld
 let () =
   let mode = Sys.argv.(1) and file = Sys.argv.(2) in
   let key_of kind = if kind = "kv" then key_kv else key_full in
-  let cont = ref "list" and key = ref key_full in
+  let cont = ref "list" and key = ref key_full and isrec = ref false in
   if mode = "model" then
     run_cases file
       (fun cfg ->
-         (match cfg with c :: k :: _ -> cont := c; key := key_of k | _ -> failwith "case config");
+         (match cfg with c :: k :: _ -> cont := c; key := key_of k; isrec := (k = "rec") | _ -> failwith "case config");
          match !cont with
          | "list" -> SL (linit (nat_of_int nv))
          | "plist" -> SP (linit (nat_of_int nv))
@@ -114,7 +117,7 @@ let () =
            emit (Printf.sprintf "%s | %s | %s r %s" (res_str (lobs_res w r) seqs (var_of toks)) pub inn rs) in
          match st with
          | SL w -> let (w', r) = lstep !key w (parse_lop toks) in node_line "L" w' r; SL w'
-         | SP w -> let (w', r) = pstep w (parse_pop toks) in node_line "P" w' r; SP w'
+         | SP w -> let (w', r) = pstep w (parse_pop !isrec toks) in node_line "P" w' r; SP w'
          | SA w ->
              let (w', r) = astep w (parse_aop toks) in
              let seqs = List.map (fun a -> a.items) w' in
@@ -127,12 +130,12 @@ let () =
   else
     run_cases file
       (fun cfg ->
-         (match cfg with c :: k :: _ -> cont := c; key := key_of k | _ -> failwith "case config");
+         (match cfg with c :: k :: _ -> cont := c; key := key_of k; isrec := (k = "rec") | _ -> failwith "case config");
          sinit (nat_of_int nv))
       (fun s _ toks ->
          let (s', r) = match !cont with
            | "list" -> lspec_fun !key s (parse_lop toks)
-           | "plist" -> pspec s (parse_pop toks)
+           | "plist" -> pspec s (parse_pop !isrec toks)
            | _ -> aspec s (parse_aop toks) in
          let letter, cap, tail = match !cont with
            | "list" -> "L", "", " rev ok" | "plist" -> "P", "", " rev ok" | _ -> "A", "?", "" in
